@@ -391,6 +391,8 @@ class Exec:
         kw = {}
         if "where" in s:
             kw["where"] = dec_arr(s["where"]["sh"], s["where"]["v"])
+            if s.get("wsp") == "py" and np.ndim(kw["where"]) == 0:
+                kw["where"] = bool(kw["where"])
         f = s["f"]
         if f == "abs":
             f = "absolute"
